@@ -101,7 +101,8 @@ class ReservedCfdpMessage(AbstractTlvBase):
     """
 
     def __init__(self, msg_type: int, value: bytes):
-        assert msg_type < pow(2, 8) - 1
+        if msg_type > pow(2, 8) - 1 or msg_type < 0:
+            raise ValueError(f"message type {msg_type} does not fit into one octet")
         full_value = bytearray("cfdp".encode())
         full_value.append(msg_type)
         full_value.extend(value)
